@@ -196,8 +196,10 @@ func (s *sut) eventParams(w *world, a *action, version, token string) (map[strin
 		}
 		keys = append(keys, pos)
 	}
-	if a.F.Huge {
-		// 1 position + 1024 keys = 1025 > rpccore.MaxEventFilterKeys
+	switch a.F.Huge {
+	case 1: // 1 position + 1023 keys = 1024 = rpccore.MaxEventFilterKeys: accepted
+		keys = [][]string{w.hugeKeys[:1023]}
+	case 2: // 1 position + 1024 keys = 1025: TOO_MANY_KEYS_IN_FILTER
 		keys = [][]string{w.hugeKeys}
 	}
 	if len(keys) > 0 || w.seed%2 == 0 {
@@ -954,9 +956,15 @@ func (r *replayer) diverge(key, what string, beh []step, idx int, exp, obs any) 
 		Expected: exp, Observed: obs})
 }
 
+// strings that are not "<block>-<processed events>"
+var garbageTokens = []string{"abc", "7", "x-1", "-"}
+
 func tokStr(t *tokT) string {
 	if t == nil || t.B == -1 {
 		return ""
+	}
+	if t.B == -7 {
+		return garbageTokens[t.P%len(garbageTokens)]
 	}
 	return fmt.Sprintf("%d-%d", t.B, t.P)
 }
@@ -1195,6 +1203,17 @@ func (r *replayer) readEventsPage(beh []step, idx int) {
 		res := st.Res
 		if v == "v8" {
 			res = st.Res8
+		}
+		if a.Tok.B == -7 { // not a token at all: INVALID_CONTINUATION_TOKEN is demanded
+			want := st.Want
+			if d := firstDiff("getEvents", &got, &want); d != "" {
+				r.diverge(fmt.Sprintf("rpc2:getEvents:%s:garbage-token:%s", v, d),
+					fmt.Sprintf("%s getEvents (%s state) with continuation_token %q answered %s", v, r.s.backend, tokStr(a.Tok), brief(&got)),
+					beh, idx, want, vh.J{"abstract": got, "response": resp})
+			} else {
+				r.out.Count("err:"+want.E, 1)
+			}
+			continue
 		}
 		// naive scan of the whole range [0, to] for this filter
 		full := *st
